@@ -91,6 +91,7 @@ type DB struct {
 	commitSeq     uint64
 	DefaultSchema string
 	Clock         TS // logical clock, advanced by the harness
+	LoopLimit     int // iterations after which a PL/pgSQL LOOP is aborted with SQLSTATE 54000 (0: one million); a harness guard, not PostgreSQL behaviour
 	Sched         Scheduler
 	advisory      map[int64]*advLock
 	Log           func(sess int, sql string)
@@ -684,13 +685,18 @@ func (db *DB) LoadMigration(name, text string) error {
 			continue
 		}
 		var fields []string
+		ftypes := map[string]string{}
 		for _, f := range strings.Split(m[2], ",") {
 			fs := strings.Fields(f)
 			if len(fs) > 0 {
 				fields = append(fields, strings.ToLower(fs[0]))
+				if len(fs) > 1 {
+					ftypes[strings.ToLower(fs[0])] = strings.ToLower(strings.Trim(fs[1], "()"))
+				}
 			}
 		}
 		compositeTypes[tn] = fields
+		compositeFieldTypes[tn] = ftypes
 	}
 	toks, err := lex(text)
 	if err != nil {
